@@ -13,6 +13,7 @@ import Proofs.GoTiePlugName
 import Proofs.GoTieCli
 import Proofs.GoTieCtors
 import Proofs.GoTieExec
+import Proofs.GoTieCliModes
 namespace AgeModel
 namespace Tie.C17
 
@@ -141,6 +142,19 @@ theorem exec_refuses_separator_src {κ χ : Type} (J : List Bytes → Go.M Bytes
     Extracted.plugin_openClientConnection J nilχ (fun _ _ => .error (.panic 99)) SP name proto =
       .ok (nilχ, some ⟨"plugin.openClientConnection", 0, []⟩) :=
   GoTie.exec_refuses_separator J nilχ SP name proto h
+
+/-! `age -d -i … -j …` (`decryptNotPass` of cmd/age/age.go, translated on every run): the ONLY thing done
+with a `-j` value is `plugin.NewIdentityWithoutData(value, ui)` — whose name check is tied above — and a
+failure to initialise it ends the process before `decrypt` (and with it any plugin) is started; the
+identities reach `decrypt` in the order of the flags. -/
+
+theorem decryptNotPass_tie {ζ ι τ υ : Type} (reject : ι) (PIF : Bytes → τ → Go.M (List ι × Option Go.Err × τ)) (ui : υ)
+    (NI : Bytes → υ → τ → Go.M (ι × Option Go.Err × τ)) (D : List ι → Bytes → ζ → τ → Go.M τ)
+    (flags : List Extracted.main_identityFlag) (inp : Bytes) (out : ζ) (t0 : τ) :
+    Extracted.main_decryptNotPass reject PIF ui NI D flags inp out t0 =
+      (do let r ← GoTie.collectIds PIF ui NI flags t0 [reject]
+          D r.2 inp out r.1) :=
+  GoTie.decryptNotPass_tie reject PIF ui NI D flags inp out t0
 
 end Tie.C17
 end AgeModel
